@@ -31,6 +31,8 @@ def build(P):
                                    requires=E("iou_threshold_in_unit_interval", "0 <= threshold_value and threshold_value <= 1") if iou else [],
                                    ensures=E("strictly_better_than_the_threshold",
                                              "result == (self.value is not None and self.value " + (">" if iou else "<") + " threshold_value)")))
+    # ---------------------------------------------------------------- is_result_correct is the statement's definition (same tasks as C03)
+    C03.correctness_tasks(P)
     # ---------------------------------------------------------------- a TP stays a TP under a looser threshold (ordinary ground truth)
     RES = TSObj("DynamicObjectWithPerceptionResult")
     for mode in C03.MODES:
